@@ -9,6 +9,7 @@ partial_fit / predict / predict_proba / set_params on one object with different 
 call get_params(deep=True) and caller-owned dicts must be unchanged; a final fit must equal a
 fresh clone fitted once on the same data."""
 import json
+import os
 import warnings
 
 import numpy as np
@@ -73,6 +74,31 @@ def run(ctx):
             ctx.violation(cls, "param_write_static", f"{f}: {cls}.{m} may write or mutate constructor parameter '{p}'",
                           {"class": cls, "method": m, "param": p, "file": f}, found_input=False,
                           what=f"obligation C13_no_param_writes no longer checks: {cls}.{m} -> parameter {p}")
+    # ---- static: fit reads no fitted attribute before (re)writing it ----
+    from ..translate import history as TH
+    from ..core import blit, natlit
+    hrows = TH.sites()
+    with open(os.path.join(ctx.build, "C13_history.v"), "w") as f:
+        rows = []
+        for cls, file, attr, line, kind, ok in hrows:
+            note = f"{file}:{line} {cls}.fit" + (f": first access of {attr} is a {'hasattr test' if kind == 'H' else 'read'}" if attr != "-" else ": every fitted attribute is written before it is read")
+            rows.append(f"({natlit(0)}, {blit(ok)})  (* {note} *)")
+        f.write("From Coq Require Import List Bool.\nFrom V Require Import Model.RngProv.\nImport ListNotations.\n"
+                "Definition fit_history_sites : list site := [\n  " + ";\n  ".join(rows) + "\n].\n"
+                "Theorem C13_fit_reads_no_history : sites_ok fit_history_sites = true.\nProof. vm_compute. reflexivity. Qed.\n"
+                "Print Assumptions C13_fit_reads_no_history.\n")
+    rc, so, se = ctx.coqc(os.path.join(ctx.build, "C13_history.v"))
+    okh = rc == 0 and "Closed under the global context" in so
+    ctx.obligations.append({"name": f"C13_fit_reads_no_history ({len({r[0] for r in hrows})} classes with fit, regenerated from /repo)", "discharged": okh,
+                            "assumptions": "Closed under the global context" if okh else (se or so)[-300:]})
+    badh = [r for r in hrows if not r[5]]
+    for cls, file, attr, line, kind, ok in badh[:10]:
+        ctx.violation(cls, "fit_reads_history_static", f"{file}:{line}: {cls}.fit accesses the fitted attribute {attr} ({'hasattr' if kind == 'H' else 'read'}) before writing it",
+                      {"class": cls, "attr": attr, "file": file, "line": line}, found_input=False,
+                      what=f"obligation C13_fit_reads_no_history no longer checks: {cls}.fit reads {attr} before (re)writing it ({file}:{line})")
+    if not okh and not badh:
+        ctx.broken("fit_history_table", "the regenerated fit-history table theorem does not check", (se or so)[-1500:])
+    ctx.extra["fit_history_reviewed"] = sorted(f"{c}.{a}[{k}]" for c, a, k in TH.REVIEWED)
     rng = ctx.rng("c13")
     # ---- sliding window ----
     from skactiveml.classifier import ParzenWindowClassifier, SlidingWindowClassifier
